@@ -25,16 +25,15 @@ META = {
         'observable; host file bytes = model image after CLOSE. Directed core (gap reproducers incl. the D5 shape reclen 2 / one '
         'record / PUT #1,4 for every reclen 1..8, boundary record numbers) in both tiers.'),
     'level_note': (
-        'Trusted: Python file I/O, Session.set_variable/get_variable for strings. Not pinned by the statement and not judged: FIELD contents after a GET '
-        'beyond the end of the file (LOC, LOF and the following implicit position ARE judged), buffer contents right after OPEN (the model treats them as unknown until a GET or a '
+        'Trusted: Python file I/O, Session.set_variable/get_variable for strings. Pinned from the tree (GW-BASIC delivers a NUL buffer): GET at / after the end and of a short tail record gives NUL-padded contents. Not pinned and not judged: buffer contents right after OPEN (the model treats them as unknown until a GET or a '
         'complete LSET), LOC before the first access, fractional record numbers, record numbers 2^25+1 .. 2^25+3 (their single-'
         'precision value is 2^25), PUT at record numbers that would need files above a few hundred KB (the upper bound 2^25 is '
-        'exercised with GET only), record lengths that do not divide the file length on re-OPEN, two numbers on the same file (C26).'),
+        'exercised with GET only), two numbers on the same file (C26).'),
     'rule': ('case = one history (files with reclen and FIELD layouts, list of operations with operands); distinct by the expanded '
              'history; non-trivial = at least one PUT and one GET'),
     'design_ref': 'DESIGN.md section 4 C25',
     'assumptions': ['host file I/O through Python is correct', 'LSET/RSET = left/right justify, blank pad, truncate on the right'],
-    'require_counters': {'any': ['reopens_of_file_ending_in_1A', 'reopens_with_other_reclen', 'puts', 'gets', 'gets_beyond_end', 'implicit_after_get_beyond_end', 'gaps_written', 'gap_records_read_zero', 'implicit_positions', 'bad_recno_refused',
+    'require_counters': {'any': ['short_tail_records_read', 'reopens_of_file_ending_in_1A', 'reopens_with_other_reclen', 'puts', 'gets', 'gets_beyond_end', 'implicit_after_get_beyond_end', 'gaps_written', 'gap_records_read_zero', 'implicit_positions', 'bad_recno_refused',
                                  'reopens', 'host_images_compared']},
     'timeout': {'quick': 900, 'thorough': 10800},
 }
@@ -114,7 +113,11 @@ def gen_history(rng):
             # re-open with another record length that divides the file length (so LOF = reclen x records stays pinned)
             total = images[name].lof()
             divs = [d for d in range(1, 129) if total % d == 0 and d != reclen]
-            if divs:
+            if rng.random() < 0.4:
+                # any record length: the file may then end in a short tail record
+                reclen = rng.choice([d for d in range(1, 129) if d != reclen])
+                images[name] = images[name].reshaped(reclen)
+            elif divs:
                 reclen = rng.choice(divs)
                 images[name] = images[name].reshaped(reclen)
         ch = chans[fno] = M.Channel(images[name])
@@ -129,6 +132,19 @@ def gen_history(rng):
             r = rng.randint(1, images[name].highest)
             ch.get(r)
             ops.append({'op': 'get', 'f': fno, 'r': r, 'form': 'lit'})
+        if images[name].short_tail():
+            # dirty the buffer with a full record (or LSETs), then GET the short tail record: must come NUL padded
+            H = images[name].highest
+            if H > 1:
+                r = rng.randint(1, H - 1)
+                ch.get(r)
+                ops.append({'op': 'get', 'f': fno, 'r': r, 'form': 'lit'})
+            for fname, off, w in list(ch.fields):
+                data = bytes(rng.choice(b'#@XYZ\xff\x1a') for _ in range(w))
+                ch.lset(fname, data)
+                ops.append({'op': 'lset', 'f': fno, 'var': fname, 'data': data})
+            ch.get(H)
+            ops.append({'op': 'get', 'f': fno, 'r': H, 'form': rng.choice(['lit', 'dbl']), 'tail': True})
 
     for k in range(nfiles):
         do_open(k + 1, names[k])
@@ -181,7 +197,17 @@ def gen_history(rng):
             H = img.highest
             if rng.random() < 0.18 and (H + 42) * img.reclen <= 400000:
                 # GET beyond the end: contents unpinned (not judged), but LOC and the implicit position are pinned
-                r = H + rng.randint(1, 40)
+                r = H + rng.choice([1, 1, 1, 2, rng.randint(1, 40)])
+                if rng.random() < 0.7:
+                    # dirty the buffer first: the GET must replace all of it with NULs
+                    if H and rng.random() < 0.5:
+                        q = rng.randint(1, H)
+                        ch.get(q)
+                        ops.append({'op': 'get', 'f': fno, 'r': q, 'form': 'lit'})
+                    for fname, off, w in list(ch.fields):
+                        data = bytes(rng.choice(b'#@XYZ\xff\x1a') for _ in range(w))
+                        ch.lset(fname, data)
+                        ops.append({'op': 'lset', 'f': fno, 'var': fname, 'data': data})
                 ch.get(r)
                 ops.append({'op': 'get', 'f': fno, 'r': r, 'form': rng.choice(['lit', 'lit', 'int', 'sng', 'dbl', 'nohash'])})
                 y = rng.random()
@@ -379,12 +405,18 @@ def run_history(box, case, res):
             if op.get('after_beyond'):
                 res.count('implicit_after_get_beyond_end')
             if r > ch.image.highest:
-                # beyond the end: FIELD contents are not pinned and not judged; LOF must not move, LOC must be r
+                # at / beyond the end: every FIELD variable must read NUL (whatever the buffer held before); LOF must not move, LOC must be r
                 res.count('upper_bound_accepted' if op.get('beyond') else 'gets_beyond_end')
                 lof = box.ev(b'LOF(%d)' % fno)
                 if lof != ch.image.lof():
                     fail('get:beyond-end-changes-lof', 'GET #%d,%d changed LOF to %r' % (fno, r, lof))
+                check_views(fno, ch, 'get:at-or-beyond-end-not-nul', r)
                 check_lof_loc(fno, ch, 'get-beyond-end')
+                continue
+            if r == ch.image.highest and ch.image.short_tail():
+                res.count('short_tail_records_read')
+                check_views(fno, ch, 'get:short-tail-record-not-nul-padded', r)
+                check_lof_loc(fno, ch, 'get')
                 continue
             if r not in ch.image.records:
                 res.count('gap_records_read_zero')
@@ -495,6 +527,27 @@ def directed_cases():
                         {'op': 'open', 'f': 1, 'name': 'S.DAT', 'reclen': reclen, 'syntax': 2, 'layout': [('A1$', reclen)]},
                         {'op': 'get', 'f': 1, 'r': nrec, 'form': 'lit'}, {'op': 'put', 'f': 1, 'r': nrec, 'form': 'lit'}, {'op': 'close', 'f': 1}]
                 cases.append({'ops': ops})
+    # dirty buffer, then GET right after the end / far after it / of a short tail record after re-OPEN with another LEN
+    for reclen, reclen2 in ((4, 3), (4, 8), (5, 2), (2, 128), (7, 4), (128, 100)):
+        for nrec in (1, 3):
+            ops = [{'op': 'open', 'f': 1, 'name': 'N.DAT', 'reclen': reclen, 'syntax': 0, 'layout': [('A1$', reclen)]}]
+            for r in range(1, nrec + 1):
+                ops += [{'op': 'lset', 'f': 1, 'var': 'A1$', 'data': bytes([0x30 + r]) * reclen}, {'op': 'put', 'f': 1, 'r': r, 'form': 'lit'}]
+            ops += [{'op': 'get', 'f': 1, 'r': nrec, 'form': 'lit'}, {'op': 'get', 'f': 1, 'r': None, 'form': 'none'},
+                    {'op': 'lset', 'f': 1, 'var': 'A1$', 'data': b'#' * reclen}, {'op': 'get', 'f': 1, 'r': nrec + 7, 'form': 'lit'},
+                    {'op': 'get', 'f': 1, 'r': 1, 'form': 'lit'}, {'op': 'get', 'f': 1, 'r': nrec + 1, 'form': 'lit'}, {'op': 'close', 'f': 1}]
+            total = nrec * reclen
+            tail = -(-total // reclen2)
+            lay2 = [('A2$', reclen2)] if reclen2 < 3 else [('A2$', 1), ('B2$', reclen2 - 1)]
+            ops += [{'op': 'open', 'f': 2, 'name': 'N.DAT', 'reclen': reclen2, 'syntax': 1, 'layout': lay2}]
+            for n_, w_ in lay2:
+                ops.append({'op': 'lset', 'f': 2, 'var': n_, 'data': b'@' * w_})
+            if tail > 1:
+                ops.append({'op': 'get', 'f': 2, 'r': 1, 'form': 'lit'})
+            ops += [{'op': 'get', 'f': 2, 'r': tail, 'form': 'lit', 'tail': True}, {'op': 'get', 'f': 2, 'r': None, 'form': 'none'},
+                    {'op': 'get', 'f': 2, 'r': tail, 'form': 'lit', 'tail': True}, {'op': 'put', 'f': 2, 'r': tail, 'form': 'lit'},
+                    {'op': 'get', 'f': 2, 'r': tail, 'form': 'lit'}, {'op': 'close', 'f': 2}]
+            cases.append({'ops': ops})
     # record number range
     ops = [{'op': 'open', 'f': 1, 'name': 'B.DAT', 'reclen': 4, 'syntax': 0, 'layout': [('A1$', 4)]},
            {'op': 'lset', 'f': 1, 'var': 'A1$', 'data': b'data'}, {'op': 'put', 'f': 1, 'r': 1, 'form': 'lit'}]
